@@ -30,6 +30,7 @@ Case (pure JSON)
 ----------------
     {"config": cfg,
      "turns": [{"user": text, "route": r, "in": [verdict..], "out": [verdict..], "body": llm text tail,
+                "redo": True = (Colang 1.0) this turn replaces the previous one: the history is re-sent without it (optional),
                 "bot": supplied bot message (optional), "options": generation options (optional)}, ...],
      "api": "sync" | "async",
      "faults": [[action, k], ...], "llm_override": [[turn, k, text], ...]}      (hooks, see vf.fakes.Session)
@@ -169,6 +170,9 @@ define user ask facts
 define user ask status
   "what is the status"
 
+define user ask answer
+  "what is the answer"
+
 define bot express greeting
   "{PREDEF['greet']}"
 
@@ -202,6 +206,11 @@ define flow status
   user ask status
   execute vf_dialog_action
   bot inform status
+
+define flow answer
+  user ask answer
+  $answer = execute vf_llm_text_action
+  bot $answer
 
 """
 
@@ -402,6 +411,8 @@ class Pipeline:
         for i in range(int(cfg.get("ret", 0))):
             self._register(fakes.make_retrieval_action(i, rail_action_name("ret", i, self.v)))
         self._register(fakes.make_dialog_action(dialog_action_name(self.v)))
+        if self.v == 1:
+            self._register(fakes.make_llm_text_action("vf_llm_text_action"))
         if self.v == 2:
             self._register(fakes.make_route_action("VfRouteAction"))
 
@@ -421,6 +432,12 @@ class Pipeline:
         user = {"role": "user", "content": turn["user"]}
         kw = {}
         if self.v == 1:
+            if not hasattr(session, "snap"):
+                session.snap = {}
+            if turn.get("redo") and t - 1 in session.snap:
+                # the user edits / regenerates the last exchange: the history is re-sent WITHOUT the previous turn
+                del session.messages[session.snap[t - 1]:]
+            session.snap[t] = len(session.messages)
             # fresh message objects for every call, as a server builds them (passthrough mode writes into them)
             msgs = copy.deepcopy(session.messages) + [dict(user)]
             if turn.get("bot") is not None:
